@@ -295,6 +295,9 @@ def check(run):
     check_souden_wmwf(run, A)
     check_ref_channel(run, A)
     check_lcmv(run, A)
+    # LCMV, Souden MVDR and WMWF solve through stable_solve: what it returns is the solver's solution (shared with C13)
+    from . import c13
+    c13.check_stable_solve(run, A)
     # the wrapper paths that use MVDR with an estimated steering vector
     for name in ('pca+mvdr', 'scaled_gev_atf+mvdr'):
         pass
